@@ -42,6 +42,29 @@ CHECKS.append(check(
     "deterministic simulation: seeded goroutine scheduler over rewritten channel operations + reference model (in-memory reader) + in-simulation race detection",
     "DESIGN.md section 3 A, section 5 C14, Appendices A and G"))
 
+CSIM_NOTE = ("Sampling of (stream, schedule) pairs. Trusts: clang-14's ASan+UBSan (minus pointer-overflow, see DESIGN.md appendix D) to surface memory errors; the simulated caller obeys exactly the "
+             "contracts the repository's own callers obey (example/zcat, example/mzcat). Covers the eight io_transformer decoders (deflate, zlib, gzip, lzw, bzip2, lzma, xz, lzip via test/data); hashers, "
+             "image and token decoders are not driven yet. Runs on this VM's x86-64 SIMD paths only. If the working tree's compiler does not build, or clang rejects its output, the check exits 2 (no verdict).")
+
+CHECKS.append(check(
+    "C03", "csim", "exploration",
+    "C generated at check time by the working tree's `wuffs gen std/...` is compiled with ASan+UBSan and driven, one call per round trip, by a simulated caller: seeded streams (independent encoders or test/data, 80% with 1-3 stream faults) delivered under seeded schedules (source split down to 1 byte, late EOF, spurious empty deliveries, source compacted or not, destination grants down to 1 byte, partial drains, compaction with history retention, relocation, work buffer at min or max, object memory pre-filled with zeroes/0xFF/noise). Oracles per call: no sanitizer report or crash; source bytes and meta untouched; destination bytes below the old wi untouched; indexes monotone and in range; status is ok/note/suspension/error and never an internal error; no short read on a closed fully supplied source, no short write with nothing written into an empty destination of at least 64 KiB, no short workbuf when the buffer meets workbuf_len().min_incl.",
+    CSIM_NOTE + " The 'never allocates or frees' clause is not yet monitored.",
+    "deterministic simulation: I/O-delivery schedule simulator around generated C under sanitizers + stream corruption faults",
+    "DESIGN.md section 3 C, section 5 C03, Appendix B"))
+CHECKS.append(check(
+    "C05", "csim", "exploration",
+    "Same simulator. Reference = one caller loop that never withholds input, output space or work buffer. Compared with it: every single split point of the source for streams up to 2 KiB (exhaustive over that axis for the sampled stream), drawn multi-split schedules as in C03, and fixed destination windows from 1 byte upward (minimum-window mode); one third of the streams damaged. Oracle: identical output bytes and final status; identical consumed count unless the final status is an error.",
+    CSIM_NOTE + " Ten open known findings, all in the lzma decoder family (leftover destination history; 274-byte minimum destination window), each keyed by oracle, decoder and the history condition.",
+    "deterministic simulation: I/O-delivery schedule simulator, differential against the one-shot delivery of the same stream",
+    "DESIGN.md section 3 C, section 5 C05"))
+CHECKS.append(check(
+    "C07", "csim", "exploration",
+    "Same simulator on undamaged streams produced at check time by independent encoders (Go compress/flate|zlib|gzip with all levels incl. stored and Huffman-only and flush patterns, Go compress/lzw, system bzip2 -1..-9, system xz --format=xz|lzma presets 0-6 with four integrity checks; payload classes incl. > 32 KiB window) on the ASan and the -O2 builds. Oracle: status ok and output == the original payload, under every drawn delivery schedule.",
+    CSIM_NOTE + " The simulated dimension is the delivery schedule; payload x encoder setting is plain seeded generation. Hashers (CRC-32/64, Adler-32, SHA-256) and PNG/GIF are not driven yet.",
+    "deterministic simulation: I/O-delivery schedule simulator + reference encoders as the model",
+    "DESIGN.md section 3 C, section 5 C07"))
+
 NA_REASONS = {
  "C06": "pure function of two big.Int interval pairs: no stream, state, schedule, fault or history exists for a simulator to control (DESIGN.md section 7)",
  "C10": "static property of an object file (sections, symbols) plus constness of pure methods: decided by inspecting a binary, not by simulating executions (DESIGN.md section 7)",
@@ -76,6 +99,7 @@ def main():
             "add_only": True,
         },
         "engines": [
+            {"name": "csim", "path": "/verif/engines/csim", "serves_properties": ["C03", "C05", "C07"], "kind_free_text": "I/O-delivery schedule simulator: a Go-side producer/consumer drives, call by call, a C driver child (/verif/csim/driver.c) linked against C that `wuffs gen` produces from the working tree at check time; sanitizer and -O2 builds, cached by content hash"},
             {"name": "gosim", "path": "/verif/engines/gosim", "serves_properties": ["C14"], "kind_free_text": "seeded goroutine scheduler (simrt) under the real lib/rac concurrent reader, whose channel constructs are rewritten at check time by /verif/rewrite and injected with go build -overlay"},
             {"name": "disksim", "path": "/verif/engines/disksim", "serves_properties": ["C13", "C15"], "kind_free_text": "simulated storage (fault-injecting io.Writer/TempFile, op-counting ReadSeeker) under the real lib/rac writer and readers"},
         ],
